@@ -78,9 +78,21 @@ def prep_conc(case: dict, schedule=None):
         lines.append(f"result {i}")
     trace = None
     if kind == "slide":
-        # the sliding bound is claimed for calls that reach the log in strictly increasing timestamp order
-        stamps = [(int(s[2].split(":")[2]), s[1]) for s in steps if s[0] == "step" and s[2].startswith("slice:")]
-        if all(a[0] < b[0] for a, b in zip(stamps, stamps[1:])) and all(not r[1].startswith("bad:") for r in results):
+        # the sliding bound is claimed for calls whose log command runs at the instant their timestamp was read
+        # (no stall in between) and in strictly increasing timestamp order; a caller stalled between reading the
+        # clock and reaching the store is counted by its arrival timestamp while the log key lapses by store time -
+        # mirrored by the model, not judged
+        now = 0
+        stamps = []
+        punctual = True
+        for s in steps:
+            if s[0] == "tick":
+                now += s[1]
+            elif s[2].startswith("slice:"):
+                ts = int(s[2].split(":")[2])
+                stamps.append((ts, s[1]))
+                punctual = punctual and ts == now
+        if punctual and all(a[0] < b[0] for a, b in zip(stamps, stamps[1:])) and all(not r[1].startswith("bad:") for r in results):
             trace = " ".join(f"{ts}:{'run' if results[t][0] else 'rej'}" for ts, t in stamps)
             lines.append("spec " + trace)
     return {"case": case, "steps": steps, "results": results, "branching": branching, "trace": trace}, lines
@@ -275,6 +287,12 @@ def interesting_conc(case: dict, ev: dict) -> set[str]:
             out.add("two callers with the same timestamp")
         if stamps and all(a < b for a, b in zip(stamps, stamps[1:])) and len(stamps) > 1:
             out.add("concurrent callers in strictly increasing timestamp order")
+        now = 0
+        for s in steps:
+            if s[0] == "tick":
+                now += s[1]
+            elif s[0] == "step" and s[2].startswith("slice:") and int(s[2].split(":")[2]) != now:
+                out.add("a caller stalled between reading the clock and its log command")
     if kind == "fixed":
         ns = [int(s[2][7:]) for s in steps if s[0] == "step" and s[2].startswith("incr:n=")]
         if ns.count(1) > 1:
@@ -447,8 +465,8 @@ def public(case: dict) -> dict:
 def run(chk: Check) -> int:
     proof = proof_stage(PROP, "driver_c15", chk.thorough) if not getattr(chk, "skip_proof", False) else None
     rng = chk.rng
-    n_seq = chk.budget(540, 30000)
-    n_conc = chk.budget(150, 6000)
+    n_seq = chk.budget(4500, 36000)
+    n_conc = chk.budget(1500, 9000)
     found = 0
     spec_hits: list = []       # cases on which the implementation contradicts the property
     diff_hits: list = []       # cases on which it only differs from the model
